@@ -65,6 +65,44 @@ def _allany(rng):
         assert bool(np.any(b)) == any(b) and bool(np.all(b)) == all(b)
 
 
+@t('numpy.isclose')
+def _isclose(rng):
+    from fractions import Fraction
+    for _ in range(400):
+        b = rng.choice([0.0, 1.0, 30000.0, -250.5, 1e-9]) if rng.random() < 0.4 else rng.uniform(-1e5, 1e5)
+        a = b + rng.choice([0.0, 1e-9, -1e-9, 1e-3, 0.25, -0.3, 1e-5 * abs(b) * rng.uniform(0.5, 1.5)])
+        want = abs(Fraction(a) - Fraction(b)) <= Fraction(1, 10**8) + Fraction(1, 10**5) * abs(Fraction(b))
+        margin = abs(abs(a - b) - (1e-8 + 1e-5 * abs(b)))
+        if margin > 1e-12 * (1 + abs(b)):          # (away from the rounding of the threshold itself)
+            assert bool(np.isclose(a, b)) == want, (a, b)
+    assert not np.isclose(float('nan'), 1.0) and not np.isclose(1.0, float('nan')) and not np.isclose(float('nan'), float('nan'))
+
+
+@t('numpy.sort', 'numpy.argsort', 'numpy.unique')
+def _sorting(rng):
+    for k in (1, 2, 3, 4):
+        for _ in range(60):
+            xs = [rng.choice([0.0, 1.5, -2.0, 250.0, 1e9]) if rng.random() < 0.5 else rng.uniform(-1e4, 1e4) for _ in range(k)]
+            s_, p_ = np.sort(xs), np.argsort(xs)
+            assert list(s_) == sorted(xs)
+            assert sorted(int(j) for j in p_) == list(range(k)) and all(xs[int(p_[j])] == s_[j] for j in range(k))
+            # masked relabelling + in-place store of an argsort result (what the re-merge pass of ncomp_from_gmm does)
+            q_ = np.argsort(xs)
+            if k > 1:
+                q_[1] = q_[0]
+                assert q_[1] == q_[0]
+    for _ in range(60):
+        K = rng.choice([2, 3])
+        a = np.array([rng.randrange(K) for _ in range(rng.randrange(1, 30))])
+        assert len(np.unique(a)) == sum(1 for v in range(K) if (a == v).any())
+        b = a.copy()
+        b[b == 1] = 0
+        assert all((b[r] == (0 if a[r] == 1 else a[r])) for r in range(len(a)))
+        v2 = np.array([float(x) for x in a]).reshape(-1, 1)
+        sel = v2[a == 0].flatten()
+        assert sel.ndim == 1 and list(sel) == [float(x) for x in a if x == 0]
+
+
 @t('numpy.array', 'numpy.full_like', 'numpy.zeros', 'numpy.concatenate', 'numpy.cumsum', 'numpy.diff', 'numpy.sum')
 def _arrays(rng):
     assert list(np.array([3.5])) == [3.5]
